@@ -1,13 +1,15 @@
 #!/usr/bin/env python3
 """Run checks against seeded defects:  tools/seedtest.py [--tier quick|thorough] [--props C01,C02] <seed-id|all> ...
-Applies seeded/<id>/patch.diff to /repo, runs ./check <property> --no-evidence, reverts /repo,
-and records the outcome in seeded/<id>/meta.json (detected_by)."""
+Applies seeded/<id>/patch.diff to a scratch worktree of /repo HEAD (so that /repo itself stays usable while
+this runs), runs VERIF_REPO=<worktree> ./check <property> --no-evidence, removes the worktree, and records the
+outcome in seeded/<id>/meta.json (detected_by).  (With --in-repo the patch is applied to /repo itself.)"""
 import argparse, glob, json, os, subprocess, sys, time
 VERIF = os.path.dirname(os.path.dirname(os.path.abspath(__file__)))
 ap = argparse.ArgumentParser()
 ap.add_argument("--tier", default="quick")
 ap.add_argument("--props", default="")
 ap.add_argument("--only", default="")
+ap.add_argument("--in-repo", action="store_true")
 ap.add_argument("ids", nargs="+")
 a = ap.parse_args()
 ids = a.ids
@@ -15,18 +17,23 @@ if ids == ["all"]:
     ids = sorted(os.path.basename(d) for d in glob.glob(os.path.join(VERIF, "seeded", "C*")))
 def sh(cmd):
     return subprocess.run(cmd, shell=True, capture_output=True, text=True)
-assert sh("git -C /repo status --porcelain").stdout.strip() == "", "/repo not clean"
+WT = "/repo" if a.in_repo else "/tmp/seedrun_%d" % os.getpid()
+if a.in_repo:
+    assert sh("git -C /repo status --porcelain").stdout.strip() == "", "/repo not clean"
+else:
+    r = sh("git -C /repo worktree add -q --detach %s HEAD" % WT)
+    assert r.returncode == 0, r.stderr
 for sid in ids:
     d = os.path.join(VERIF, "seeded", sid)
     meta = json.load(open(os.path.join(d, "meta.json")))
     props = a.props.split(",") if a.props else [meta["property"]]
-    ap_ = sh("git -C /repo apply %s/patch.diff" % d)
+    ap_ = sh("git -C %s apply %s/patch.diff" % (WT, d))
     if ap_.returncode != 0:
         print(sid, "PATCH DOES NOT APPLY", ap_.stderr[:200]); continue
     try:
         for pid in props:
             t0 = time.time()
-            cmd = "cd %s && ./check %s --tier %s --no-evidence" % (VERIF, pid, a.tier) + (" --only '%s'" % a.only if a.only else "")
+            cmd = "cd %s && VERIF_REPO=%s ./check %s --tier %s --no-evidence" % (VERIF, WT, pid, a.tier) + (" --only '%s'" % a.only if a.only else "")
             r = sh(cmd)
             viol = [l for l in r.stdout.splitlines() if l.startswith("VIOLATION")]
             herr = [l for l in r.stdout.splitlines() if l.startswith("HARNESS-ERROR")]
@@ -39,5 +46,8 @@ for sid in ids:
                 meta["detected_by"] = det
                 json.dump(meta, open(os.path.join(d, "meta.json"), "w"), indent=1)
     finally:
-        sh("git -C /repo checkout -- . && git -C /repo clean -fdq")
-assert sh("git -C /repo status --porcelain").stdout.strip() == "", "/repo not clean after run"
+        sh("git -C %s checkout -- . && git -C %s clean -fdq" % (WT, WT))
+if a.in_repo:
+    assert sh("git -C /repo status --porcelain").stdout.strip() == "", "/repo not clean after run"
+else:
+    sh("git -C /repo worktree remove --force %s" % WT)
